@@ -131,6 +131,12 @@ def gen_T12():
     rng = [n for n in ast.walk(sb) if isinstance(n, ast.Call) and isinstance(n.func, ast.Name) and n.func.id == 'range']
     need(len(rng) == 1 and len(rng[0].args) == 1 and isinstance(rng[0].args[0], ast.Constant), 'splitBytes: range(..) changed')
     tries = rng[0].args[0].value
+    # byteTextWrap always makes progress: width at least 1, and an empty `before` takes one character
+    btw = ast.unparse(find_def(u, 'byteTextWrap'))
+    need('if size < 1:\n        size = 1' in btw
+         and "if not before:\n                before = word.decode('utf8')[:1].encode('utf8')\n                after = word[len(before):]" in btw
+         and 'if len(lines[-1]) + len(word) <= size:\n            lines[-1] += word\n        else:\n            lines.append(word)' in btw,
+         'byteTextWrap: progress rule / packing changed')
     # ---- ircutils.py ----
     i = tree('src/ircutils.py')
     size = find_def(i, 'size', 'FormatContext')
